@@ -12,6 +12,7 @@ pub mod c06;
 pub mod c07;
 pub mod c08;
 pub mod c09;
+pub mod c10;
 
 pub fn get(id: &str) -> Option<Box<dyn Monitor>> {
     match id {
@@ -24,6 +25,7 @@ pub fn get(id: &str) -> Option<Box<dyn Monitor>> {
         "C07" => Some(Box::new(c07::C07)),
         "C08" => Some(Box::new(c08::C08)),
         "C09" => Some(Box::new(c09::C09)),
+        "C10" => Some(Box::new(c10::C10)),
         _ => None,
     }
 }
